@@ -133,6 +133,13 @@ func (r *upcastRegistry) apply(data json.RawMessage, eventType string) (json.Raw
 				upcaster.FromType, upcaster.ToType, err)
 		}
 
+		// The registered graph is acyclic, but a raw upcaster may return a
+		// type other than its declared target; following it back to a type
+		// that was already processed would never end
+		if appliedTypes[newType] {
+			return data, eventType, fmt.Errorf("eventbus: upcast loop detected")
+		}
+
 		currentData = newData
 		currentType = newType
 	}
